@@ -24,6 +24,12 @@ Fixpoint plain_data (v : pyval) : bool :=
   | _ => false
   end.
 
+(* what a schema validator may look at: the value under a key, an absent key and a key holding None being
+   indistinguishable (validators read cfg.key; the model's leaf_values lists a list-of-configurations slot
+   that still holds None, and does not list it once it holds a list) *)
+Definition vlookup (k : str) (l : list (str * pyval)) : option pyval :=
+  match assoc str_eqb k l with Some PNone => None | o => o end.
+
 Section RT.
   Variable F : Type.
   Variable lvalidate : F -> pyval -> res pyval.
@@ -60,7 +66,7 @@ Section RT.
            | x :: r, y :: r' => same_cfg fs x y /\ items r r'
            | _, _ => False
            end) la lb
-    | NCfgList _ _ _, VList [], VLeaf PNone => True
+    | NCfgList _ _ _, VList la, VLeaf PNone => la = []
     | _, _, _ => False
     end.
 
@@ -94,7 +100,7 @@ Section RT.
            | x :: r, y :: r' => same_cfg fs x y && items r r'
            | _, _ => false
            end) la lb
-    | NCfgList _ _ _, VList [], VLeaf PNone => true
+    | NCfgList _ _ _, VList la, VLeaf PNone => is_nil la
     | _, _, _ => false
     end.
   Definition same_valuesb (fs : list (str * node)) (ca cb : cfg) : bool :=
